@@ -2,7 +2,7 @@
 from ..engine import show
 from ..idioms import dispatch, entry_points, update_base, loaded_from, field_of, nf, walk, response_entries
 from .cw3common import (SENDER, BLOCK, HEIGHT, CS, AUTHORIZE, IS_EXPIRED, STATUS, CONTRACTS, status, items, cs_call,
-                        exec_paths, is_expired_cond)
+                        exec_paths, is_expired_cond, cs_is_passed, cs_not_passed, stored_status_in, cs_term)
 
 ID = "C05"
 RULES = {
@@ -57,8 +57,9 @@ def run(ctx):
         return
     PROP, BAL, COUNT = it["proposals"], it["ballots"], it["count"]
     n_exec = n_close = n_nc = n_create = 0
+    auth_cases = set()
     for crate in CONTRACTS:
-        groups = exec_paths(ctx, crate, opaque=(CS, AUTHORIZE))
+        groups = exec_paths(ctx, crate, opaque=(CS,))
         CFG = it["fixed_config"] if crate == "cw3_fixed_multisig" else it["flex_config"]
         for variant, ps in sorted(groups.items(), key=lambda x: str(x[0])):
             key = "%s::execute/%s" % (crate, variant)
@@ -97,32 +98,19 @@ def run(ctx):
                     if st == status("Executed"):
                         n_exec += 1
                         executed = True
-                        g1 = any(c[0][0] == "cmp" and c[0][1] == "eq" and c[1] is True and c[3] <= i and
-                                 set((c[0][2], c[0][3])) == set((("call", CS, (base, BLOCK)), status("Passed"))) for c in p.conds)
+                        g1 = cs_is_passed(ctx, p, base, before=i)
                         g2 = True
                         if crate == "cw3_flex_multisig":
-                            g2 = False
-                            for c in p.conds:
-                                t = c[0]
-                                if t[0] == "call" and t[1] == AUTHORIZE and c[1] == "Ok" and c[3] <= i and t[2][-1] == SENDER:
-                                    lc = loaded_from(t[2][0])
-                                    g2 = lc is not None and lc[0] == CFG
+                            g2, case = flex_authorized(p, CFG, before=i)
+                            if case:
+                                auth_cases.add(case)
                         ctx.ob("R05.1", key + "/Executed write", g1 and g2, sites=[e.site],
                                detail="status := Executed without the guards before the write (current_status == Passed: %s, "
                                       "authorize(info.sender) Ok: %s)" % (g1, g2), sample={"guards": [g1, g2]})
                     elif st == status("Rejected"):
                         n_close += 1
-                        g1 = g2 = False
-                        for c in p.conds:
-                            t = c[0]
-                            if c[3] > i:
-                                continue
-                            if t[0] == "call" and t[1].endswith("contains") and c[1] is False and t[2][1] == ("field", base, "status") \
-                                    and t[2][0][0] == "list" and set(t[2][0][1]) >= {status("Executed"), status("Rejected"), status("Passed")}:
-                                g1 = True
-                            if t[0] == "cmp" and t[1] == "eq" and c[1] is False and \
-                                    set((t[2], t[3])) == set((("call", CS, (base, BLOCK)), status("Passed"))):
-                                g2 = True
+                        g1 = stored_status_in(ctx, p, base, ("Pending", "Open"), before=i)
+                        g2 = cs_not_passed(ctx, p, base, before=i)
                         g3 = is_expired_cond(p, ("field", base, "expires"), True, before=i)
                         ctx.ob("R05.3", key + "/Rejected write", g1 and g2 and g3, sites=[e.site],
                                detail="status := Rejected without all guards (stored status open-ish: %s, current_status != Passed: %s, "
@@ -159,7 +147,7 @@ def run(ctx):
     ctx.floor("R05.3", "Rejected writes", n_close, 2)
     ctx.floor("R05.4", "non-creating PROPOSALS writes", n_nc, 6)
     ctx.floor("R05.5", "creating PROPOSALS writes", n_create, 2)
-    check_authorize(ctx)
+    ctx.floor("R05.1", "executor cases seen on flex Execute paths (None / Member / Only)", len(auth_cases), 3)
     # other entry points must not touch proposals
     for crate in CONTRACTS:
         eps = entry_points(ctx.facts, crate)
@@ -184,6 +172,15 @@ def check_create(ctx, p, i, e, key, it, crate, CFG):
         n_ = nf(v)
         prev = [a for a in n_.atoms if a[0] == "orzero" and a[1][0] == "vfield" and a[1][1][0] == "may_load" and a[1][1][1] == COUNT]
         good = len(prev) == 1 and n_.atoms == {prev[0]: 1} and n_.const == 1 and not n_.inexact and e.key == v
+        if not good:
+            # the same thing with the stored counter decided by a branch: Some(n) => n + 1, None => 0 + 1
+            for c in p.conds:
+                t = c[0]
+                if t[0] == "vfield" and t[2] == "Ok" and t[1][0] == "may_load" and t[1][1] == COUNT and t[1][3] == cw[0][1].ver and c[3] <= cw[0][0]:
+                    if c[1] == "Some":
+                        good = n_.atoms == {("vfield", t, "Some", "0"): 1} and n_.const == 1 and not n_.inexact and e.key == v
+                    elif c[1] == "None":
+                        good = not n_.atoms and n_.const == 1 and not n_.inexact and e.key == v
         why = "id %s / counter %s is not (stored count or 0) + 1 used as the key of the new proposal" % (show(e.key)[:100], show(v)[:100])
         bw = [x for x in p.effects if x.kind == "write" and x.item == BAL]
         if good and not (len(bw) == 1 and bw[0].key == ("tuple", (v, SENDER))):
@@ -192,66 +189,82 @@ def check_create(ctx, p, i, e, key, it, crate, CFG):
     ctx.ob("R05.5", key + "/id", good, detail=why, sites=[e.site], sample={"id": show(e.key)[:120]})
     # R05.6 expiry clamp
     exp = field_of(e.value, "expires")
+    latest = ("vfield", ("param", "msg"), "Propose", "latest")
+    lsel = [c[1] for c in p.conds if c[0] == latest and isinstance(c[1], str)]
     cmpc = [c for c in p.conds if c[0][0] == "call" and c[0][1].endswith("partial_cmp") and isinstance(c[1], str)]
+
+    def is_max(mx):
+        return mx[0] == "call" and mx[1].endswith("Duration::after") and mx[2][1] == BLOCK and mx[2][0][0] == "field" \
+            and mx[2][0][2] == "max_voting_period" and bool(loaded_from(mx[2][0][1])) and loaded_from(mx[2][0][1])[0] == CFG
     good = False
     why = "no comparison of the requested expiry with the maximum"
-    if cmpc:
+    if not cmpc and lsel == ["None"]:
+        # nothing requested: the default is the maximum itself, there is nothing to compare
+        good = is_max(exp)
+        why = "no expiry requested but the stored expiry %s is not max_voting_period.after(env.block)" % show(exp)[:120]
+    elif cmpc:
         t = cmpc[0][0]
         req, mx = t[2]
-        lc = None
-        mx_ok = mx[0] == "call" and mx[1].endswith("Duration::after") and mx[2][1] == BLOCK and mx[2][0][0] == "field" \
-            and mx[2][0][2] == "max_voting_period" and loaded_from(mx[2][0][1]) and loaded_from(mx[2][0][1])[0] == CFG
-        req_ok = req == ("unwrap_or", ("vfield", ("param", "msg"), "Propose", "latest"), mx)
+        mx_ok = is_max(mx)
+        req_ok = req == ("unwrap_or", latest, mx) or (lsel == ["Some"] and req == ("vfield", latest, "Some", "0")) \
+            or (lsel == ["None"] and req == mx)
         some = cmpc[0][1]
-        ordv = [c[1] for c in p.conds if c[0] == ("vfield", t, "Some", "0")]
+        # which orderings the path still allows, however the test was spelled (match / == Some(Greater) / map+ok_or)
+        payload = ("vfield", t, "Some", "0")
+        ords = {"Less", "Equal", "Greater"}
+        for c in p.conds:
+            x, o = c[0], c[1]
+            if x == payload and isinstance(o, str):
+                ords &= {o}
+            elif x[0] == "cmp" and x[1] == "eq" and isinstance(o, bool):
+                for a_, b_ in ((x[2], x[3]), (x[3], x[2])):
+                    v = None
+                    if a_ == t and b_[0] == "variant" and b_[2] == "Some" and b_[3][0][1][0] == "variant":
+                        v = b_[3][0][1][2]
+                    elif a_ == payload and b_[0] == "variant" and not b_[3]:
+                        v = b_[2]
+                    if v is not None:
+                        ords = (ords & {v}) if o else (ords - {v})
         if some != "Some":
             why = "an incomparable expiry (partial_cmp = None) has an Ok-path"
         elif not (mx_ok and req_ok):
             why = "comparison operands are not (requested or default, max_voting_period.after(env.block)): %s" % show(t)[:200]
-        elif ordv == ["Greater"]:
+        elif ords == {"Greater"}:
             good = exp == mx
             why = "requested expiry beyond the maximum is stored as %s, not clamped to the maximum" % show(exp)[:120]
-        elif ordv and ordv[0] in ("Less", "Equal"):
-            good = exp == req
+        elif ords and "Greater" not in ords:
+            good = exp == req or (lsel == ["None"] and exp == mx)
             why = "stored expiry %s is not the requested one" % show(exp)[:120]
         else:
-            why = "ordering decision missing: %s" % ordv
+            why = "ordering decision missing: %s" % sorted(ords)
     ctx.ob("R05.6", key + "/expiry", good, detail=why, sites=[e.site], sample={"expires": show(exp)[:160]})
 
 
-def check_authorize(ctx):
-    b = ctx.facts.bodies.get(AUTHORIZE)
-    if not ctx.ob("R05.1", "anchor:Config::authorize", b is not None, detail="flex Config::authorize not found", trivial=True):
-        return
-    ps = ctx.summarise(AUTHORIZE)
-    SELF = ("param", "self")
-    ex = ("field", SELF, "executor")
-    n = 0
-    for p in ps:
-        if p.is_err():
+def flex_authorized(p, CFG, before=None):
+    """(authorised?, case): the decisions of path p before `before` establish that info.sender may execute under the stored
+    CONFIG.executor - None: anyone; Some(Member): the sender was found in the group (is_member .. Some);
+    Some(Only(a)): a == info.sender.  Recognised on the inlined decisions, wherever the authorising code lives."""
+    ex = None
+    kind = None
+    for c in p.conds:
+        if before is not None and c[3] > before:
             continue
-        n += 1
-        kind = [c[1] for c in p.conds if c[0] == ex]
-        inner = [c[1] for c in p.conds if c[0] == ("vfield", ex, "Some", "0")]
-        good = False
-        why = ""
-        if kind == ["None"]:
-            good = True
-            case = "None"
-        elif inner == ["Member"]:
-            case = "Member"
-            # is_member(querier, sender, None) must be Some
-            good = any(c[1] == "Some" and any(x[0] == "call" and x[1].endswith("::query") for x in walk(c[0]))
-                       and any(x == ("param", "sender") for x in walk(c[0])) for c in p.conds)
-            why = "Executor::Member authorises without the sender being found in the group"
-        elif inner == ["Only"]:
-            case = "Only"
-            a = ("vfield", ("vfield", ex, "Some", "0"), "Only", "0")
-            good = any(c[0][0] == "cmp" and c[0][1] == "eq" and set((c[0][2], c[0][3])) == set((a, ("param", "sender"))) and c[1] is True
-                       for c in p.conds)
-            why = "Executor::Only(addr) authorises without addr == sender"
-        else:
-            case = "?"
-            why = "unrecognised executor case %s %s" % (kind, inner)
-        ctx.ob("R05.1", "authorize/" + case, good, detail=why, sites=[(b.file, b.line, b.path)], sample={"case": case})
-    ctx.floor("R05.1", "authorize Ok cases", n, 3)
+        t = c[0]
+        if t[0] == "field" and t[2] == "executor" and loaded_from(t[1]) and loaded_from(t[1])[0] == CFG and isinstance(c[1], str):
+            ex, kind = t, c[1]
+    if ex is None:
+        return False, None
+    if kind == "None":
+        return True, "None"
+    inner_t = ("vfield", ex, "Some", "0")
+    inner = [c[1] for c in p.conds if c[0] == inner_t and (before is None or c[3] <= before)]
+    if inner == ["Member"]:
+        good = any(c[1] == "Some" and (before is None or c[3] <= before) and any(x[0] == "call" and x[1].endswith("::query") for x in walk(c[0]))
+                   and any(x == SENDER for x in walk(c[0])) for c in p.conds)
+        return good, "Member"
+    if inner == ["Only"]:
+        a = ("vfield", inner_t, "Only", "0")
+        good = any(c[0][0] == "cmp" and c[0][1] == "eq" and set((c[0][2], c[0][3])) == set((a, SENDER)) and c[1] is True
+                   and (before is None or c[3] <= before) for c in p.conds)
+        return good, "Only"
+    return False, "?"
